@@ -221,6 +221,8 @@ def slot_memos(ctx) -> None:
 
 def run(ctx) -> None:
     from . import C08
+    nred = shared.r_reduce(ctx, [c for c in ctx.prog.classes.values() if c.module.name.startswith('forml.application')])
+    ctx.floor('R-PICKLE.reduce', nred, 1)
 
     C08.eqhash_agreement(ctx, ('forml.io.asset', 'forml.application'), floor=4)
     slot_memos(ctx)
